@@ -100,6 +100,12 @@ def run(ctx, known, built):
             ctx.violations.append({"id": r["id"], "xml": r["xml"], "injection": r["inj"], "implementation": r["impl"],
                                    "demand": "the parser returns a glyph or an error, it does not panic"})
             continue
+        if r.get("rules"):
+            ctx.violations.append({"id": r["id"], "xml": r["xml"], "format": r["ver"], "injection": r["inj"],
+                                   "implementation": r["impl"], "returned_glyph": r["rules"],
+                                   "demand": "every returned glyph satisfies the glif rules (no point-less contour, unique "
+                                             "identifiers, no public.objectLibs key, format-1 named move points are anchors)"})
+            continue
         if r["legal"] == acc:
             if r.get("corpus") and r["class"]:
                 stale.add(r["corpus"])
@@ -201,4 +207,6 @@ def replay(ctx, path):
         print("obeys the rules of the property:", inp["obeys_rules"])
     if "model" in inp:
         print("model:", inp["model"])
+    if "returned_glyph" in inp:
+        print("the returned glyph breaks a rule:", inp["returned_glyph"])
     return 0
